@@ -47,7 +47,9 @@ func chunking(n, k int) []int {
 		return nil
 	}
 	if k < n {
-		return []int{k}
+		// one split, followed by a zero-length Read (n = 0, err = nil: "nothing
+		// happened" under the io.Reader contract), then the rest
+		return []int{k, 0}
 	}
 	c := make([]int, n)
 	for i := range c {
@@ -252,7 +254,8 @@ func VerifC03_Templates() {
 	case 1:
 		chunks = chunking(len(buf), len(buf)) // byte by byte
 	case 2:
-		chunks = []int{vx.Concrete(vx.IntIn("split", 1, len(buf)-1))}
+		// one split, then a zero-length Read (legal for an io.Reader), then the rest
+		chunks = []int{vx.Concrete(vx.IntIn("split", 1, len(buf)-1)), 0}
 	}
 	want := vref.Classify(buf)
 	valid := want.Kind == vref.Accept
@@ -670,7 +673,7 @@ func VerifC03_Multi() {
 		if len(buf) < 2 {
 			vx.Assume(false)
 		}
-		chunks = []int{vx.Concrete(vx.IntIn("split", 1, len(buf)-1))}
+		chunks = []int{vx.Concrete(vx.IntIn("split", 1, len(buf)-1)), 0} // split, zero-length Read, rest
 	}
 	vx.Key("chunking", mode)
 	multiBuf = buf
